@@ -132,7 +132,7 @@ def writer_events(w):
     if w.get("hung"):
         ev.append({"ev": "wend", "case": w["case"], "seg": 1, "status": "hung", "same": False, "blocks": [], "contentLen": 0,
                    "consumed": 0, "segLen": 0, "flg": 0, "bd": 0, "csize": [], "clean": False, "sinkIsPrefix": True,
-                   "injected": False, "closecalled": False})
+                   "injected": False, "closecalled": False, "single": False, "handler": False, "hcalls": 0, "hsum": 0, "storedsum": 0})
         return ev
     prev_calls, prev_sink = 0, 0
     for i, c in enumerate(w["calls"]):
@@ -147,7 +147,9 @@ def writer_events(w):
                    "blocks": [b["dec"] for b in f["blocks"]], "contentLen": f["contentLen"], "consumed": f["consumed"],
                    "segLen": f["segLen"], "flg": f["flg"], "bd": f["bd"], "csize": f["csize"], "clean": w["panicked"] == "",
                    "sinkIsPrefix": w.get("sinkIsPrefix", True), "injected": w.get("injected", False),
-                   "closecalled": any(c["op"] == "close" for c in w["calls"])})
+                   "closecalled": any(c["op"] == "close" for c in w["calls"]),
+                   "single": len(w["frames"]) == 1, "handler": bool(o.get("handler")), "hcalls": len(w.get("handler") or []),
+                   "hsum": sum(w.get("handler") or []), "storedsum": sum(b["size"] for b in f["blocks"])})
     return ev
 
 
@@ -164,7 +166,7 @@ def validate_writer_runs(ctx, wruns, d, max_reject=4):
                 for e in writer_events(w):
                     f.write(json.dumps(e, separators=(",", ":")) + "\n")
         cfg = ("SPECIFICATION TraceSpec\nCONSTANTS\n  B = %d\n  Legacy = %s\n  TraceFile = \"trace.ndjson\"\n"
-               "INVARIANTS\n  Conservation\n  ClosedFrameComplete\n  BlocksAreFull\n  PendingBounded\n  AtMostOneHeader\n"
+               "INVARIANTS\n  Conservation\n  ClosedFrameComplete\n  BlocksAreFull\n  PendingBounded\n  AtMostOneHeader\n  HandlerAccounting\n"
                "POSTCONDITION TraceAccepted\nCHECK_DEADLOCK FALSE\n" % (B, "TRUE" if legacy else "FALSE"))
         acc, rej = vlib.validate_trace(ctx, "Writer_Trace", tp, cfg="Writer_Trace", cfg_text=cfg, timeout=1800,
                                        max_reject=max_reject)
